@@ -46,7 +46,11 @@ Hash(x) == (x.rng * 7 + (x.off + 3) * 13 + x.step * 17 + x.start * 19 + x.n * 23
             + FoldSet(LAMBDA u, acc : acc + (IF x.lay[u] = "-" THEN 0 ELSE IF x.lay[u] = "f" THEN u + 1 ELSE 3 * (u + 1)), 0, 0..MaxT) * 29)
 FnOf(x) == Fns[Pick(Hash(x) + (Seed % 997) * 131, 1, Len(Fns)) + 1]
 
-Data(x) == << Series(<< <<"__name__", "m">>, <<"a", "x">> >>, SmpOf(x)),
+\* m{a="w"} comes first in the storage and ends after two samples, m{a="z"} lives through the window: neighbours of
+\* m{a="x"} in its shard with other lifetimes (values 3: the window law looks at the series a="x" only)
+Data(x) == << Series(<< <<"__name__", "m">>, <<"a", "w">> >>, <<Smp(0, "f", 3), Smp(1, "f", 3)>>),
+              Series(<< <<"__name__", "m">>, <<"a", "x">> >>, SmpOf(x)),
+              Series(<< <<"__name__", "m">>, <<"a", "z">> >>, [u \in 1..(MaxT + 14) |-> Smp(u - 1, "f", 3)]),
               Series(<< <<"__name__", "decoy">>, <<"a", "x">> >>, <<Smp(0, "f", 7), Smp(MaxT, "f", 8)>>) >>
 EndOf(x) == IF x.step = 0 THEN x.start ELSE x.start + (x.n - 1) * x.step
 ScnOf(x) == Scn("win", "C03", TickMs, Data(x), <<RFn(FnOf(x), <<Metric("m")>>, x.rng, x.off, x.at.k, x.at.v)>>,
@@ -62,10 +66,12 @@ WindowLaw ==
       gr == Grid(sc) IN
   g.pat = "pow2" =>
   \A i \in 1..Len(gr) :
-     LET r == Eval(sc, 1, gr[i])  w == InWin(g, gr[i]) IN
+     LET r == Eval(sc, 1, gr[i])  w == InWin(g, gr[i])
+         vx == SelectSeq(r.vec, LAMBDA e : e.ls = {<<"a", "x">>})
+     IN
      /\ r.why = {} /\ ~r.unk
-     /\ IF w = {} THEN Len(r.vec) = 0
-        ELSE Len(r.vec) = 1 /\ r.vec[1].val = I(FoldSet(LAMBDA u, acc : acc + 2 ^ u, 0, w)) /\ r.vec[1].ls = {<<"a", "x">>}
+     /\ IF w = {} THEN Len(vx) = 0
+        ELSE Len(vx) = 1 /\ vx[1].val = I(FoldSet(LAMBDA u, acc : acc + 2 ^ u, 0, w))
 
 \* boundary: a sample exactly on either window edge, or just outside, at some step; or a marker inside
 Interesting(x) ==
